@@ -26,7 +26,7 @@ var cbDims = []dim{
 	{"idplace", []string{"query", "absent", "empty", "body", "both"}},
 	{"record", []string{"done", "pending", "absent"}},
 	{"binding", []string{"post", "redirect", "artifact", "empty"}},
-	{"acs", []string{"plain", "with-query", "empty", "special"}},
+	{"acs", []string{"plain", "with-query", "empty", "special", "with-fragment"}},
 	{"relay", []string{"rs-1", "", "meta"}},
 	{"reqid", []string{"plain", "meta"}},
 	{"user", []string{"full", "minimal", "custom", "hostile", "missing"}},
@@ -115,6 +115,8 @@ func runCb(c Case) *CbRun {
 		rec.Acs = "https://sp.example.com/acs?tenant=42"
 	case "special":
 		rec.Acs = "https://sp.example.com/acs/%C3%A9path/it's;v=1,2"
+	case "with-fragment":
+		rec.Acs = "https://sp.example.com/acs?tenant=42#top"
 	}
 	switch c["relay"] {
 	case "rs-1":
@@ -265,6 +267,21 @@ func monC01(c *Ctx, r *CbRun) {
 
 // ---- C02 (callback slice)
 
+// redirectAddresses: loc is the consumer URL with the message parameters inserted as (or appended to) its query,
+// in front of its fragment if it has one.  net/http.Redirect percent-encodes non-ASCII bytes of the target.
+func redirectAddresses(loc, acs string) bool {
+	t, frag := hexEscapeNonASCII(acs), ""
+	if j := strings.Index(t, "#"); j >= 0 {
+		t, frag = t[:j], t[j:]
+	}
+	if !strings.HasPrefix(loc, t) || !strings.HasSuffix(loc, frag) || len(loc) < len(t)+2+len(frag) {
+		return false
+	}
+	mid := loc[len(t) : len(loc)-len(frag)]
+	hasQ := strings.Contains(t, "?")
+	return ((mid[0] == '?' && !hasQ) || (mid[0] == '&' && hasQ)) && strings.HasPrefix(mid[1:], "SAMLResponse=") && !strings.Contains(mid, "#")
+}
+
 func monC02cb(c *Ctx, r *CbRun) {
 	if r.Rec == nil || r.Reply.Panicked || r.Case["lookup"] != "ok" || r.Case["idplace"] == "absent" || r.Case["idplace"] == "empty" {
 		return
@@ -280,15 +297,7 @@ func monC02cb(c *Ctx, r *CbRun) {
 			c.issue(Issue{Kind: "violation", What: "delivered by POST although another binding was persisted", Site: site, Class: "binding-mismatch", Detail: r.detail()})
 		}
 	case "redirect":
-		full := r.Reply.Location
-		want := r.Rec.Acs
-		ok := strings.HasPrefix(full, want) && len(full) > len(want)
-		if ok {
-			sep := full[len(want)]
-			rest := full[len(want)+1:]
-			hasQ := strings.Contains(want, "?")
-			ok = ((sep == '?' && !hasQ) || (sep == '&' && hasQ)) && strings.HasPrefix(rest, "SAMLResponse=")
-		}
+		ok := redirectAddresses(r.Reply.Location, r.Rec.Acs)
 		if !ok {
 			c.issue(Issue{Kind: "violation", What: "redirect does not address the persisted consumer URL with the message as query parameters", Site: site, Class: "redirect-target:acs=" + r.Case["acs"], Detail: r.detail()})
 		}
